@@ -266,6 +266,18 @@ def run_impl(c):
         for k, v in f.attributes._d.items():
             o = pv(v)
             kinds.append([k, o if o is not None and o[0] != "s" else ["l", ["<not a sequence>"]]])
+        # the switch changes how one-item lists are VIEWED - nothing else: the printed line is the same under both settings
+        try:
+            constants.always_return_list = True
+            line_on = str(f)
+            constants.always_return_list = False
+            line_off = str(f)
+        except Exception as ex:
+            line_on, line_off = "on", "raised %s" % L.err_class(ex)
+        finally:
+            constants.always_return_list = True
+        if line_on != line_off:
+            kinds.append(["<printed line differs with always_return_list=False>", ["l", [line_on, line_off]]])
         return {"reads": reads, "kinds": kinds}
     if c["k"] == "json":
         a = Attributes()
@@ -311,6 +323,19 @@ def run_impl(c):
             res = ["ok", [[k, list(v)] for k, v in items]] if ok else ["err", "Other"]
         except Exception as ex:
             res = ["err", L.err_class(ex)]
+        # ... the same answer under the other setting of always_return_list (the switch only changes a view)
+        from gffutils import constants
+        constants.always_return_list = False
+        try:
+            m2 = helpers.merge_attributes(a1, a2, numeric_sort=c["numeric"])
+            items2 = list(m2.items()) if isinstance(m2, dict) else list(m2._d.items())
+            res2 = ["ok", [[k, list(v) if isinstance(v, (list, tuple)) else v] for k, v in items2]]
+        except Exception as ex:
+            res2 = ["err", L.err_class(ex)]
+        finally:
+            constants.always_return_list = True
+        if res2 != res and res[0] == "ok":
+            res = ["err", "Other"]
         return {"m": res, "unchanged": a1._d == b1 and a2._d == b2 and list(a1._d) == list(b1) and list(a2._d) == list(b2)}
     f, Df = fdesc_feature(c["f"])
     g, Dg = fdesc_feature(c["g"])
